@@ -158,6 +158,29 @@ def hist_sig(k):
     return ([pool[(k + i) % 5] for i in range(4)], [pool[(k + 2 * i + 1) % 5] for i in range(4)])
 
 
+_AS_NODE: list = []
+
+
+def as_node(n):
+    """an object implementing hugr's ToNode protocol around node n (not itself a Node)"""
+    if not _AS_NODE:
+        from hugr.hugr.node_port import ToNode
+
+        class Wrapped(ToNode):
+            def __init__(self, node):
+                self._n = node
+
+            def to_node(self):
+                return self._n
+
+            @property
+            def idx(self):     # (convenience for the HARNESS's own bookkeeping only)
+                return self._n.idx
+
+        _AS_NODE.append(Wrapped)
+    return _AS_NODE[0](n)
+
+
 class Exec:
     """Runs a history on a real Hugr and on the model in lock-step."""
 
@@ -186,7 +209,10 @@ class Exec:
 
         base = self.handles[k]
         self.uses = getattr(self, "uses", 0) + 1
-        how = self.uses % 5
+        how = self.uses % 6
+        if how == 5:
+            # something that merely CAN be treated as a node (what the builders are): only to_node() says which
+            return as_node(base)
         if how == 1:
             return Node(base.idx)
         if how == 2:
